@@ -102,7 +102,7 @@ EvIter(e) ==
         /\ P("C01", "new_strictly_above", e.new_rank > e.worst_rank)
         /\ P("C01", "new_prior_and_bounds", e.new_ok)
         /\ P("C01", "dead_monotone",
-                Len(s.dead) > 0 => rank[Last(s.dead)] <= e.worst_rank)
+                Len(s.dead) > 0 => (Last(s.dead) \in DOMAIN rank /\ rank[Last(s.dead)] <= e.worst_rank))
         /\ P("C01", "dead_once", e.worst \notin Range(s.dead) /\ e.n_dead = Len(s.dead) + 1)
         /\ P("C01", "dead_not_live", e.worst \notin Range(e.live) /\ e.new \notin Range(post.dead))
         /\ P("C01", "index_is_position", e.n_ins = Len(s.ins) + 1
